@@ -115,16 +115,6 @@ def distinct : List Bytes → Bool
   | [] => true
   | a :: t => !t.contains a && distinct t
 
-/-- the paths `handleConfigID` would produce from `p`, ignoring the gate and the mux (an
-    over-approximation of the real redirect chain); `none` = longer than `n` hops -/
-def idChain (idx : Index) : Nat → Bytes → Option (List Bytes)
-  | 0, p => match handleConfigID idx p with
-    | .redirect _ => none
-    | _ => some [p]
-  | n + 1, p => match handleConfigID idx p with
-    | .redirect np => (idChain idx n np).map (p :: ·)
-    | _ => some [p]
-
 def sPOST : Bytes := [80, 79, 83, 84]
 def sCONNECT : Bytes := [67, 79, 78, 78, 69, 67, 84]
 
@@ -162,7 +152,7 @@ def handle : List String → String
             else
               let hd := newAdminHandler ⟨os, eo, acl⟩ a (side == "R") pats
               let r : Req := ⟨m, h, p, up, o, rf, ou, ru, tls⟩
-              let res := serveHTTP probeHits hd idx (maxHops + 2) r 0
+              let res := serveHTTP probeHits hd idx (maxHops + 1) r 0
               s!"{showFinal res.final} {Hex.encode res.path} {res.cors} {res.state}"
       | _, _, _, _, _, _, _ => "bad-op"
     | _, _, _, _, _, _ => "bad-op"
